@@ -33,7 +33,7 @@ type histSpec struct {
 	Status   bool   // the desired child carries a status key (a hook echoing what it observed)
 	Ann      bool   // the desired child carries an annotation of the hook's own
 	Lbl      bool   // the desired child carries an extra label
-	Echo     bool   // read-modify-return hook: the desired child carries every annotation of the child it observed (incl. metacontroller's own record)
+	Echo     string // read-modify-return hook: "" plain; "annotations": the desired child carries every annotation of the child it observed (incl. metacontroller's own record); "full": its whole metadata and status (uid, resourceVersion, ownerReferences, ...)
 }
 
 func (s histSpec) key() string { return fmt.Sprintf("%+v", s) }
@@ -42,7 +42,7 @@ func histSpecOf(req kit.M) histSpec {
 	g := func(k string) string { return kit.Str(req, "object", "spec", k) }
 	n, _ := kit.Get(req, "object", "spec", "replicas").(int64)
 	b := func(k string) bool { v, _ := kit.Get(req, "object", "spec", k).(bool); return v }
-	return histSpec{V: g("v"), Replicas: int(n), Extra: g("extra"), Ports: g("ports"), Status: b("status"), Ann: b("ann"), Lbl: b("lbl"), Echo: b("echo")}
+	return histSpec{V: g("v"), Replicas: int(n), Extra: g("extra"), Ports: g("ports"), Status: b("status"), Ann: b("ann"), Lbl: b("lbl"), Echo: g("echo")}
 }
 
 func (s histSpec) into(o kit.M) {
@@ -79,8 +79,20 @@ func histChildren(s histSpec, genSel bool, observed kit.M) kit.L {
 		if s.Status {
 			o["status"] = kit.M{}
 		}
-		if s.Echo {
-			if ob, ok := observed[kit.Name(o)].(kit.M); ok {
+		if ob, ok := observed[kit.Name(o)].(kit.M); ok && s.Echo != "" {
+			if s.Echo == "full" {
+				// the hook took the object it was shown and only set the fields it cares about
+				md := kit.Copy(kit.Map(ob, "metadata"))
+				for k, v := range kit.Map(o, "metadata") {
+					if k != "labels" && k != "annotations" {
+						md[k] = v
+					}
+				}
+				o["metadata"] = md
+				if st, ok := ob["status"]; ok {
+					o["status"] = st
+				}
+			} else {
 				for k, v := range kit.Map(ob, "metadata", "annotations") {
 					kit.Ann(o, k, fmt.Sprint(v))
 				}
@@ -101,6 +113,9 @@ func histChildren(s histSpec, genSel bool, observed kit.M) kit.L {
 }
 
 var histSSA bool
+
+// histLastErr: the error of the last sync of the last settle (nil = it succeeded)
+var histLastErr error
 
 type histCfg struct {
 	Method string // "InPlace", "Recreate", "<unset>"
@@ -150,11 +165,13 @@ func histSettle(w *dworld, bad func(key, format string, a ...interface{})) bool 
 		if e := fp.Verify(); e != nil {
 			bad("cache-mutated", "%v", e)
 		}
-		if err != nil {
-			bad("sync-error", "%v", err)
-			return false
-		}
+		// (a sync that fails - e.g. an optimistic-lock conflict because the hook echoed a stale resourceVersion - is
+		// retried by the work queue; what counts here is that the retries end in quiescence. C12 judges errors.)
 		writes := 0
+		histLastErr = err
+		if err != nil {
+			writes++
+		}
 		for _, r := range w.Sim.Log {
 			if r.Mutating() {
 				writes++
@@ -295,7 +312,7 @@ func (x *histSys) Events() []string {
 		// own field-ownership rules, which the simulated server only approximates)
 		add("status", fmt.Sprint(x.spec.Status), "true", "false")
 	}
-	add("echo", fmt.Sprint(x.spec.Echo), "true", "false")
+	add("echo", x.spec.Echo, "", "annotations", "full")
 	if x.full {
 		add("ann", fmt.Sprint(x.spec.Ann), "true", "false")
 		add("lbl", fmt.Sprint(x.spec.Lbl), "true", "false")
@@ -338,7 +355,7 @@ func (x *histSys) Apply(ev string) {
 		case "lbl":
 			x.spec.Lbl = kv[1] == "true"
 		case "echo":
-			x.spec.Echo = kv[1] == "true"
+			x.spec.Echo = kv[1]
 		}
 		sp := x.spec
 		x.w.Sim.Edit(kit.Thing, "n1", "p", func(o map[string]interface{}) { sp.into(o) })
@@ -346,7 +363,14 @@ func (x *histSys) Apply(ev string) {
 	x.w.DeliverAll()
 	if !histSettle(x.w, x.bad) {
 		if len(x.findings) == 0 {
-			x.bad("no-convergence", "not quiescent 10 rounds after the event")
+			key := "no-convergence"
+			switch {
+			case histLastErr != nil:
+				key += ":sync-keeps-failing"
+			case x.spec.Echo == "full":
+				key += ":hook-echoes-resourceVersion" // which makes the hook's answer differ after every write
+			}
+			x.bad(key, "not quiescent 10 rounds after the event (last sync error: %v)", histLastErr)
 		}
 		return
 	}
